@@ -346,6 +346,10 @@ func ckksLeaf(c *engine.Chooser, scName string, cfg *ckksCfg) {
 	sig := "C13/ckks-" + bc.name + "/" + entryNames[entry]
 	class := knownClass("ckks", sh, kind, entry, declare)
 	rep := reporter{c: c, class: class, dedicated: cfg.dedicated}
+	if nilHoles && kind < kVector0 && sh.mask != uint64(1)<<(sh.degree+1)-1 && !(cfg.irregular && bc.basis == bignum.Chebyshev) {
+		// single polynomial with a nil coefficient: one input class, one signature
+		rep = reporter{c: c, class: classNilCoeff, dedicated: true}
+	}
 	if cfg.declareEach && sh.degree > 0 {
 		rep = reporter{c: c, class: classMixedDeclared, dedicated: true}
 	}
@@ -439,14 +443,12 @@ func ckksLeaf(c *engine.Chooser, scName string, cfg *ckksCfg) {
 	mkBig := func(k int) bignum.Polynomial {
 		var p bignum.Polynomial
 		var cs interface{} = coeffs[k]
-		// nil (absent) coefficients are only usable where the library never dereferences them: in vectors (a nil entry of
-		// the coefficient vector encodes as 0) and where the Paterson-Stockmeyer split fills the hole (the irregular-hole
-		// shapes); a nil elsewhere in a single polynomial is a nil-pointer panic in the scalar MulThenAdd (not generated).
-		if nilHoles && (kind >= kVector0 || (cfg.irregular && bc.basis == bignum.Chebyshev)) {
-			// absent terms as nil coefficients (the leading one stays: the library dereferences Coeffs[degree])
+		// nil (absent) coefficients: bignum.Polynomial treats nil as zero (Evaluate, Factorize, Clone; mod1 builds such
+		// polynomials); so must the evaluator
+		if nilHoles {
 			bc := make([]*bignum.Complex, len(coeffs[k]))
 			for i, v := range coeffs[k] {
-				if v != 0 || i == len(coeffs[k])-1 {
+				if v != 0 {
 					bc[i] = bignum.ToComplex(v, w.Params.EncodingPrecision())
 				}
 			}
